@@ -38,6 +38,12 @@ CONSTANTS Ids,        \* universe of message ids (model values)
           Trust,      \* config.dedup_trust_negative_cache
           Threads,    \* worker threads of the one process (ProcNext)
           MultiWriter,\* TRUE: another PROCESS writes processed_messages (breaks the documented precondition)
+          Fix,        \* {} = the code as it is; otherwise the parts of the proposed repair that are applied
+                      \* (docs/proposed_fixes/C09-dedup-race.diff):
+                      \*   "decision" maybe_seen + authoritative are read in ONE critical section
+                      \*   "rotation" reset + re-hydration are one critical section
+                      \*   "record"   the durable record is written before the filter is marked
+          Variants,   \* handler outcomes explored: subset of {"txn", "plain", "fail"} (see Handle)
           FixedH      \* {} = quantify over every hash function; otherwise the set of functions to explore
 
 NoMsg == "-"
@@ -55,11 +61,14 @@ VARIABLES
   processed,  \* durable processed_messages
   pc, msg, ms, checked, snap,   \* per worker thread: control point, message id, maybe_seen answer,
                                 \* durable check done?, ids read for hydration
-  bad,        \* GHOST: ids whose handler was entered although the id was in processed
+  committed,  \* GHOST: ids whose handler committed its effects TOGETHER WITH the processed record
+  bad,        \* GHOST: ids whose handler was entered again after that (the C09 violation)
+  badAny,     \* GHOST: ids whose handler was entered although the id was in processed (stronger reading)
   act         \* label of the last step (for export and for the step properties); not part of the VIEW
 
 fvars == <<h, bits, auth, aged, told, hyd>>
-pvars == <<processed, pc, msg, ms, checked, snap, bad>>
+pvars == <<processed, pc, msg, ms, checked, snap, committed, bad, badAny>>
+ghosts == <<committed, bad, badAny>>
 vars  == <<fvars, pvars, act>>
 View  == <<fvars, pvars>>
 
@@ -77,16 +86,18 @@ DoReset    == /\ bits' = {} /\ auth' = FALSE /\ aged' = FALSE
               /\ told' = {} /\ hyd' = FALSE
 DoGrant    == /\ auth' = TRUE /\ hyd' = TRUE
 
-Fresh == /\ bits = {} /\ auth = FALSE /\ aged = FALSE /\ told = {} /\ hyd = FALSE
-
-Init ==
+InitRest(a) ==
   /\ h \in (IF FixedH = {} THEN HashFunctions ELSE FixedH)
-  /\ Fresh
+  /\ bits = {} /\ aged = FALSE /\ told = {} /\ auth = a /\ hyd = a
   /\ processed = {}
   /\ pc = [t \in T |-> "idle"] /\ msg = [t \in T |-> NoMsg] /\ ms = [t \in T |-> FALSE]
   /\ checked = [t \in T |-> FALSE] /\ snap = [t \in T |-> {}]
-  /\ bad = {}
+  /\ committed = {} /\ bad = {} /\ badAny = {}
   /\ act = [op |-> "init"]
+\* a BloomDeduplicator just constructed: not authoritative
+Init == InitRest(FALSE)
+\* a process just started on an empty store: QueueProcessor.__init__ has hydrated the filter (from nothing)
+ProcInit == InitRest(TRUE)
 
 (***************************************************************************)
 (* FilterNext: the class on its own, any caller.                           *)
@@ -104,7 +115,8 @@ Age ==
   /\ ~aged /\ aged' = TRUE /\ UNCHANGED <<h, bits, auth, told, hyd, pvars>>
   /\ act' = [op |-> "age"]
 
-FilterNext == (\E x \in Ids : Mark(x)) \/ (\E S \in SUBSET Ids : Hydrate(S)) \/ Reset \/ Age
+FilterCore == (\E x \in Ids : Mark(x)) \/ (\E S \in SUBSET Ids : Hydrate(S)) \/ Reset
+FilterNext == FilterCore \/ Age       \* FilterCore: without the clock (the quick tier's all-functions run)
 
 (***************************************************************************)
 (* ProcNext: _handle_message, thread t, message id x.                      *)
@@ -119,21 +131,22 @@ Done(t)    == /\ pc' = [pc EXCEPT ![t] = "idle"] /\ msg' = [msg EXCEPT ![t] = No
 Deliver(t, x) ==
   /\ pc[t] = "idle" /\ \A u \in T : msg[u] # x                     \* D3
   /\ msg' = [msg EXCEPT ![t] = x] /\ Goto(t, "query")
-  /\ UNCHANGED <<fvars, processed, ms, checked, snap, bad>>
+  /\ UNCHANGED <<fvars, processed, ms, checked, snap, ghosts>>
   /\ act' = [op |-> "deliver", t |-> t, x |-> x]
 
 \* dedup.maybe_seen(message_id)
 Query(t) ==
   /\ pc[t] = "query"
   /\ ms' = [ms EXCEPT ![t] = MaybeSeen(msg[t])]
-  /\ Goto(t, IF MaybeSeen(msg[t]) \/ ~Trust THEN "check" ELSE "readauth")
-  /\ UNCHANGED <<fvars, processed, msg, checked, snap, bad>> /\ Lbl(t, "query")
+  /\ Goto(t, IF "decision" \in Fix THEN (IF MaybeSeen(msg[t]) \/ ~(Trust /\ auth) THEN "check" ELSE "rot")
+              ELSE (IF MaybeSeen(msg[t]) \/ ~Trust THEN "check" ELSE "readauth"))
+  /\ UNCHANGED <<fvars, processed, msg, checked, snap, ghosts>> /\ Lbl(t, "query")
 
 \* ... or not (trust_negative and dedup.authoritative): a SECOND critical section
 ReadAuth(t) ==
   /\ pc[t] = "readauth"
   /\ Goto(t, IF auth THEN "rot" ELSE "check")
-  /\ UNCHANGED <<fvars, processed, msg, ms, checked, snap, bad>> /\ Lbl(t, "readauth")
+  /\ UNCHANGED <<fvars, processed, msg, ms, checked, snap, ghosts>> /\ Lbl(t, "readauth")
 
 \* store.is_message_processed(message_id)
 Check(t) ==
@@ -142,18 +155,26 @@ Check(t) ==
      THEN Done(t) /\ act' = [op |-> "skipdup", t |-> t, x |-> msg[t]]
      ELSE /\ Goto(t, "rot") /\ checked' = [checked EXCEPT ![t] = TRUE]
           /\ UNCHANGED <<msg, ms, snap>> /\ Lbl(t, "check")
-  /\ UNCHANGED <<fvars, processed, bad>>
+  /\ UNCHANGED <<fvars, processed, ghosts>>
 
 \* dedup.should_reset(0.7)
+HydrateAll ==    \* a fresh filter hydrated from the store in one step (restart; rotation under Fix)
+  /\ aged' = FALSE
+  /\ IF Cardinality(processed) > Cap
+     THEN bits' = {} /\ told' = {} /\ auth' = FALSE /\ hyd' = FALSE
+     ELSE /\ bits' = UNION {h[x] : x \in processed} /\ told' = processed
+          /\ auth' = TRUE /\ hyd' = TRUE
 Rot(t) ==
   /\ pc[t] = "rot"
-  /\ Goto(t, IF ShouldReset THEN "reset" ELSE "handle")
-  /\ UNCHANGED <<fvars, processed, msg, ms, checked, snap, bad>> /\ Lbl(t, "rot")
+  /\ IF "rotation" \in Fix /\ ShouldReset
+     THEN HydrateAll /\ Goto(t, "handle") /\ UNCHANGED h
+     ELSE Goto(t, IF ShouldReset THEN "reset" ELSE "handle") /\ UNCHANGED fvars
+  /\ UNCHANGED <<processed, msg, ms, checked, snap, ghosts>> /\ Lbl(t, "rot")
 
 \* dedup.reset()
 PReset(t) ==
   /\ pc[t] = "reset" /\ DoReset /\ Goto(t, "readids")
-  /\ UNCHANGED <<h, processed, msg, ms, checked, snap, bad>> /\ Lbl(t, "reset")
+  /\ UNCHANGED <<h, processed, msg, ms, checked, snap, ghosts>> /\ Lbl(t, "reset")
 
 \* _hydrate_deduplicator: ids = store.get_processed_message_ids(limit = capacity + 1);
 \* more than capacity ids: the filter stays advisory (no hydrate at all)
@@ -162,52 +183,54 @@ ReadIds(t) ==
   /\ IF Cardinality(processed) > Cap
      THEN Goto(t, "handle") /\ UNCHANGED snap
      ELSE Goto(t, "hydbits") /\ snap' = [snap EXCEPT ![t] = processed]
-  /\ UNCHANGED <<fvars, processed, msg, ms, checked, bad>> /\ Lbl(t, "readids")
+  /\ UNCHANGED <<fvars, processed, msg, ms, checked, ghosts>> /\ Lbl(t, "readids")
 
 \* dedup.hydrate(ids): the bits ... (D1)
 HydBits(t) ==
   /\ pc[t] = "hydbits" /\ DoMark(snap[t]) /\ Goto(t, "grant")
-  /\ UNCHANGED <<h, auth, aged, hyd, processed, msg, ms, checked, snap, bad>> /\ Lbl(t, "hydbits")
+  /\ UNCHANGED <<h, auth, aged, hyd, processed, msg, ms, checked, snap, ghosts>> /\ Lbl(t, "hydbits")
 \* ... and then the authority
 Grant(t) ==
   /\ pc[t] = "grant" /\ DoGrant /\ Goto(t, "handle")
-  /\ UNCHANGED <<h, bits, aged, told, processed, msg, ms, checked, snap, bad>> /\ Lbl(t, "grant")
+  /\ UNCHANGED <<h, bits, aged, told, processed, msg, ms, checked, snap, ghosts>> /\ Lbl(t, "grant")
+
+\* the code marks the filter first and the store second; the repair records durably first
+AfterHandle == IF "record" \in Fix THEN "markdb" ELSE "mark"
 
 \* handler.handle(message).  v = "txn": the handler commits its effects together with the processed
 \* record (the usual path); "plain": the handler returns without recording (early-return paths; the
 \* generic mark below records it); "fail": the handler raises, nothing is recorded.
 Handle(t, v) ==
   /\ pc[t] = "handle"
-  /\ bad' = IF msg[t] \in processed THEN bad \cup {msg[t]} ELSE bad
-  /\ CASE v = "txn"   -> /\ processed' = processed \cup {msg[t]} /\ Goto(t, "mark")
+  /\ bad' = IF msg[t] \in committed THEN bad \cup {msg[t]} ELSE bad
+  /\ badAny' = IF msg[t] \in processed THEN badAny \cup {msg[t]} ELSE badAny
+  /\ CASE v = "txn"   -> /\ processed' = processed \cup {msg[t]} /\ committed' = committed \cup {msg[t]}
+                         /\ Goto(t, AfterHandle) /\ UNCHANGED <<msg, ms, checked, snap>>
+       [] v = "plain" -> /\ UNCHANGED <<processed, committed>> /\ Goto(t, AfterHandle)
                          /\ UNCHANGED <<msg, ms, checked, snap>>
-       [] v = "plain" -> /\ UNCHANGED processed /\ Goto(t, "mark")
-                         /\ UNCHANGED <<msg, ms, checked, snap>>
-       [] v = "fail"  -> /\ UNCHANGED processed /\ Done(t)
+       [] v = "fail"  -> /\ UNCHANGED <<processed, committed>> /\ Done(t)
   /\ UNCHANGED fvars
   /\ act' = [op |-> "handle", t |-> t, x |-> msg[t], v |-> v, skipped |-> ~checked[t]]
 
 \* dedup.mark_seen(message_id)
 MarkSeen(t) ==
-  /\ pc[t] = "mark" /\ DoMark({msg[t]}) /\ Goto(t, "markdb")
-  /\ UNCHANGED <<h, auth, aged, hyd, processed, msg, ms, checked, snap, bad>> /\ Lbl(t, "markseen")
+  /\ pc[t] = "mark" /\ DoMark({msg[t]})
+  /\ IF "record" \in Fix THEN Done(t) ELSE Goto(t, "markdb") /\ UNCHANGED <<msg, ms, checked, snap>>
+  /\ UNCHANGED <<h, auth, aged, hyd, processed, ghosts>> /\ Lbl(t, "markseen")
 
 \* store.mark_message_processed(message_id)   (INSERT OR IGNORE)
 MarkDb(t) ==
-  /\ pc[t] = "markdb" /\ processed' = processed \cup {msg[t]} /\ Done(t)
-  /\ UNCHANGED <<fvars, bad>> /\ Lbl(t, "markdb")
+  /\ pc[t] = "markdb" /\ processed' = processed \cup {msg[t]}
+  /\ IF "record" \in Fix THEN Goto(t, "mark") /\ UNCHANGED <<msg, ms, checked, snap>> ELSE Done(t)
+  /\ UNCHANGED <<fvars, ghosts>> /\ Lbl(t, "markdb")
 
 \* the process dies and a new one starts: every thread is gone, get_deduplicator() creates a fresh
 \* filter, QueueProcessor.__init__ hydrates it (single threaded at that point: one step)
 Restart ==
   /\ pc' = [t \in T |-> "idle"] /\ msg' = [t \in T |-> NoMsg] /\ ms' = [t \in T |-> FALSE]
   /\ checked' = [t \in T |-> FALSE] /\ snap' = [t \in T |-> {}]
-  /\ aged' = FALSE
-  /\ IF Cardinality(processed) > Cap
-     THEN bits' = {} /\ told' = {} /\ auth' = FALSE /\ hyd' = FALSE
-     ELSE /\ bits' = UNION {h[x] : x \in processed} /\ told' = processed
-          /\ auth' = TRUE /\ hyd' = TRUE
-  /\ UNCHANGED <<h, processed, bad>>
+  /\ HydrateAll
+  /\ UNCHANGED <<h, processed, ghosts>>
   /\ act' = [op |-> "restart"]
 
 PAge ==
@@ -217,14 +240,14 @@ PAge ==
 \* another process handled x and recorded it (only if the documented precondition is dropped)
 Foreign(x) ==
   /\ MultiWriter /\ x \notin processed /\ \A u \in T : msg[u] # x
-  /\ processed' = processed \cup {x}
-  /\ UNCHANGED <<fvars, pc, msg, ms, checked, snap, bad>>
+  /\ processed' = processed \cup {x} /\ committed' = committed \cup {x}
+  /\ UNCHANGED <<fvars, pc, msg, ms, checked, snap, bad, badAny>>
   /\ act' = [op |-> "foreign", x |-> x]
 
 ThreadStep(t) ==
   \/ \E x \in Ids : Deliver(t, x)
   \/ Query(t) \/ ReadAuth(t) \/ Check(t) \/ Rot(t) \/ PReset(t) \/ ReadIds(t) \/ HydBits(t) \/ Grant(t)
-  \/ \E v \in {"txn", "plain", "fail"} : Handle(t, v)
+  \/ \E v \in Variants : Handle(t, v)
   \/ MarkSeen(t) \/ MarkDb(t)
 
 ProcNext == (\E t \in T : ThreadStep(t)) \/ Restart \/ PAge \/ (\E x \in Ids : Foreign(x))
@@ -235,6 +258,7 @@ ProcNext == (\E t \in T : ThreadStep(t)) \/ Restart \/ PAge \/ (\E x \in Ids : F
 TypeOK ==
   /\ h \in HashFunctions /\ bits \subseteq Pos /\ auth \in BOOLEAN /\ aged \in BOOLEAN
   /\ told \subseteq Ids /\ hyd \in BOOLEAN /\ processed \subseteq Ids /\ bad \subseteq Ids
+  /\ committed \subseteq processed
 
 \* "The in-memory filter never reports an id it has been told about as new" - for EVERY hash function
 NoFalseNegative == \A x \in told : MaybeSeen(x)
@@ -247,9 +271,9 @@ EmptyAnswersNew == bits = {} => \A x \in Ids : ~MaybeSeen(x)
 AuthorityExact == auth = hyd
 \* step form (act' names the step just taken)
 ResetRevokes  == [][act'.op = "reset" => (~auth' /\ bits' = {} /\ told' = {})]_vars
-OnlyHydrateGrants == [][(~auth /\ auth') => act'.op \in {"hydrate", "grant", "restart"}]_vars
+OnlyHydrateGrants == [][(~auth /\ auth') => act'.op \in {"hydrate", "grant", "restart", "rot"}]_vars
 HydrateGrants == [][act'.op = "hydrate" => (auth' /\ act'.S \subseteq told')]_vars
-OnlyResetRevokes == [][(auth /\ ~auth') => act'.op \in {"reset", "restart"}]_vars
+OnlyResetRevokes == [][(auth /\ ~auth') => act'.op \in {"reset", "restart", "rot"}]_vars
 
 \* processor level --------------------------------------------------------------------------------
 InFlight == {msg[t] : t \in {u \in T : pc[u] \in {"mark", "markdb"}}}
@@ -258,9 +282,11 @@ AuthorityCovers == auth => (processed \ InFlight) \subseteq told
 \* the decision rule: the durable check is skipped iff trust /\ authoritative /\ ~maybe_seen
 SkipRule == \A t \in T : pc[t] = "handle" => (checked[t] \/ (Trust /\ ~ms[t]))
 TrustOffAlwaysChecks == ~Trust => \A t \in T : pc[t] \in {"rot", "reset", "readids", "hydbits", "grant", "handle"} => checked[t]
-\* C09: a message whose processed record is durable is never dispatched again
+\* C09: a message whose handling committed (effects + processed record together) is never dispatched again
 NoRedispatch == bad = {}
+\* stronger reading: nor one whose processed record was written by the generic mark after the handler returned
+NoRedispatchAny == badAny = {}
 
 FilterSpec == Init /\ [][FilterNext]_vars
-ProcSpec   == Init /\ [][ProcNext]_vars
+ProcSpec   == ProcInit /\ [][ProcNext]_vars
 =============================================================================
